@@ -229,6 +229,7 @@ EXTRA_DOCS = [
     ("hand:definition", "; t1 : d1\n; t2\n: d2\n"),
     ("hand:nested-definition", "* a1\n*; t1 : d1\n"),
     ("hand:brackets", "x1 [[ y1 ]] z1 [[a1\n"),
+    ("hand:protected-pair", "a1 [<noinclude/>[b1]<noinclude/>] c1 and ''[<noinclude/>[d1]<noinclude/>]''\n"),
     ("hand:brackets-in-call", "{{t|a1 [[ b1}} {{#if:x1|]] y1}}\n"),
     ("hand:nowiki-brackets", "<nowiki>[[a1]]</nowiki> &#91;&#91;b1&#93;&#93;\n"),
     ("hand:caption", "{|\n|+ cap\n|-\n| a1\n|}\n"),
